@@ -22,6 +22,7 @@ type Case struct {
 	Tick  bool   `json:"tick,omitempty"`
 	Fmt   string `json:"fmt,omitempty"` // ljh22 | ljh3 | off
 	N     int    `json:"n,omitempty"`   // samples per record (number of bases for off)
+	Align bool   `json:"align,omitempty"` // pipe: raise N until the consumer stalls holding the first bytes of a record
 	Ops   []GOp  `json:"ops"`
 }
 
@@ -197,6 +198,50 @@ func genPub(r *lib.Rng, format string) Case {
 	return c
 }
 
+// long records (thousands of samples / coefficients): a thousand of them queue up; several stall / refill
+// cycles with different amounts let through, so that the queue becomes exactly full at varying positions
+// inside the writers' call sequence
+func genLongPipe(r *lib.Rng, format string, n int, cycles int, align bool) Case {
+	c := Case{Kind: "pipe", Fmt: format, N: n, Align: align}
+	recBytes := 16 + 2*n
+	switch format {
+	case "ljh3":
+		recBytes = 24 + 2*n
+	case "off":
+		recBytes = 36 + 4*n
+	}
+	c.Ops = append(c.Ops, GOp{Op: "S"}, GOp{Op: "B", N: 2*65536/recBytes + 1000 + r.Range(15, 40)})
+	for i := 0; i < cycles; i++ {
+		c.Ops = append(c.Ops, GOp{Op: "A", N: r.Range(1, 40) * recBytes / 2}, GOp{Op: "Y", N: 3000}, GOp{Op: "B", N: r.Range(25, 45)})
+	}
+	return c
+}
+
+// several formats open on one channel, Flush / SetPause between small batches
+func genPubFlush(r *lib.Rng) Case {
+	c := Case{Kind: "pubflush", Fmt: []string{"22+off", "22+3", "3+off", "22+3+off", "22+3+off"}[r.Intn(5)], N: r.Pick([]int{16, 40, 100})}
+	for i, n := 0, r.Range(2, 7); i < n; i++ {
+		c.Ops = append(c.Ops, GOp{Op: "B", N: r.Range(1, 50)})
+		c.Ops = append(c.Ops, GOp{Op: []string{"F", "F", "P"}[r.Intn(3)]})
+	}
+	if r.Chance(1, 2) {
+		c.Ops = append(c.Ops, GOp{Op: "B", N: r.Range(1, 20)})
+	}
+	return c
+}
+
+// a stall of several seconds (longer than any plausible time-out) across a Close / a Flush
+func holdCase(r *lib.Rng, closing bool, ms int) Case {
+	c := Case{Kind: "gate", Cap: r.Range(2, 5), Bsize: 8}
+	ctl := "F"
+	if closing {
+		ctl = "C"
+	}
+	c.Ops = []GOp{{Op: "W", N: 9 + r.Intn(4), S: 1}, {Op: "W", N: r.Range(1, 8), S: 40}, {Op: "W", N: r.Range(0, 12), S: 90},
+		{Op: ctl}, {Op: "Z", N: ms}, {Op: "R"}, {Op: "Z", N: 300}, {Op: "D"}}
+	return c
+}
+
 func w(n, s int) GOp { return GOp{Op: "W", N: n, S: s} }
 
 func corpus() []Case {
@@ -228,6 +273,13 @@ func pipeCorpus() []Case {
 		{Kind: "pipe", Fmt: "ljh22", N: 250, Ops: []GOp{op("S"), {Op: "B", N: 1300}}},
 		{Kind: "pipe", Fmt: "ljh3", N: 250, Ops: []GOp{op("S"), {Op: "B", N: 1300}}},
 		{Kind: "pipe", Fmt: "off", N: 60, Ops: []GOp{op("S"), {Op: "B", N: 1520}}},
+		// long records
+		genLongPipe(lib.NewRng(71), "ljh22", 4096, 5, true),
+		genLongPipe(lib.NewRng(72), "ljh3", 5000, 5, true),
+		genLongPipe(lib.NewRng(73), "off", 600, 5, true),
+		// several formats open, flushes between batches
+		{Kind: "pubflush", Fmt: "22+off", N: 40, Ops: []GOp{{Op: "B", N: 7}, op("F"), {Op: "B", N: 30}, op("P"), {Op: "B", N: 3}}},
+		{Kind: "pubflush", Fmt: "22+3+off", N: 100, Ops: []GOp{{Op: "B", N: 1}, op("F"), {Op: "B", N: 50}, op("F"), op("P"), {Op: "B", N: 9}, op("F")}},
 		// ... and through DataPublisher.PublishData
 		{Kind: "pub", Fmt: "pub22", N: 250, Ops: []GOp{op("S"), {Op: "B", N: 1300}}},
 		{Kind: "pub", Fmt: "pub3", N: 250, Ops: []GOp{op("S"), {Op: "B", N: 1300}, op("F"), {Op: "B", N: 7}}},
@@ -248,6 +300,8 @@ func gen(seed uint64, tier string) []interface{} {
 		id++
 		out = append(out, c)
 	}
+	// first, so that its seconds of waiting overlap with everything else: a 6.5 s stall across a Close
+	add(holdCase(lib.NewRng(7), true, 6500))
 	for _, c := range corpus() {
 		add(c)
 	}
@@ -272,6 +326,22 @@ func gen(seed uint64, tier string) []interface{} {
 	for i := 0; i < ntick; i++ {
 		add(genTick(r.Fork()))
 	}
+	if tier == "thorough" {
+		add(holdCase(r.Fork(), false, 6500))
+		add(holdCase(r.Fork(), true, 7000))
+		add(holdCase(r.Fork(), false, 5500))
+		for i, f := range []string{"ljh22", "ljh3", "off"} {
+			add(genLongPipe(r.Fork(), f, []int{10000, 4096, 3000}[i], 8, false))
+			add(genLongPipe(r.Fork(), f, []int{5000, 7000, 500}[i]+r.Intn(300), 3, true))
+			// Close while the reader stays stalled for 6.5 s with more than bufio + pipe capacity pending
+			add(Case{Kind: "pipe", Fmt: f, N: []int{250, 250, 60}[i], Ops: []GOp{{Op: "S"}, {Op: "B", N: 700}, {Op: "K", N: 6500}}})
+		}
+		for i := 0; i < 20; i++ {
+			add(genPubFlush(r.Fork()))
+		}
+	} else {
+		add(genPubFlush(r.Fork()))
+	}
 	return out
 }
 
@@ -288,6 +358,9 @@ func main() {
 			}
 			if c.Kind == "pub" {
 				return runPub(c), nil
+			}
+			if c.Kind == "pubflush" {
+				return runPubFlush(c), nil
 			}
 			if c.Cap < 1 {
 				c.Cap = 1
